@@ -128,7 +128,7 @@ struct World {
     while (quiet < 2) {
       turn(); size_t g = tcp_read(); TR("    pump: read %zu (have %zu)", g, tcp_in.size());
       if (g) { quiet = 0; continue; }
-      if (tcp_partial() && !tcp_eof && waited < 400) { waited++; usleep(500); continue; }
+      if (tcp_partial() && !tcp_eof && waited < 100) { waited++; struct pollfd pf = {cli_tcp, POLLIN, 0}; struct timespec ts = {0, 2000000}; ppoll(&pf, 1, &ts, nullptr); continue; }
       quiet++;
     }
   }
@@ -170,7 +170,7 @@ static inline bool labels_eq(const Labels &a, const Labels &b, bool nocase) {
   for (size_t i = 0; i < a.size(); i++) { if (nocase ? !eq_nocase(a[i], b[i]) : a[i] != b[i]) return false; }
   return true;
 }
-static inline size_t xrec_size(const XRec &r) { return wire_len(r.owner) + 10 + (r.is_name ? wire_len(r.target) : r.datalen); }
+static inline size_t xrec_size(const XRec &r) { return wire_len(r.owner) + (r.opt ? 1 : 0) /* the root may be written as a pointer */ + 10 + (r.is_name ? wire_len(r.target) : r.datalen); }
 static inline size_t uncompressed_size(const Expect &e) {
   size_t n = 12; for (auto &q : e.q) n += wire_len(q.name) + 4;
   for (int s = 0; s < 3; s++) for (auto &r : e.sec[s]) n += xrec_size(r);
